@@ -308,6 +308,7 @@ type failingWriter struct {
 	after   int
 	n       atomic.Int64
 	deliver bool
+	once    bool
 	gates   *gates
 	rec     *recorder
 }
@@ -322,7 +323,7 @@ func (f *failingWriter) Write(p []byte) (int, error) {
 			f.gates.wait("write", 5*time.Second)
 			return 0, errors.New("injected write error (after delivery)")
 		}
-		if k > f.after {
+		if k == f.after+1 || (k > f.after && !f.once) {
 			return 0, errors.New("injected write error")
 		}
 	}
@@ -687,7 +688,7 @@ func runJob(job atpcs.Job) (res atpcs.JobResult) {
 	}
 	fw := &faultWriter{w: s2cW, fault: job.Fault, closedAt: -1}
 	gt := &gates{}
-	cw := &failingWriter{w: c2sW, after: job.WriteFailAfter, deliver: job.WriteFailDeliver, gates: gt, rec: rec}
+	cw := &failingWriter{w: c2sW, after: job.WriteFailAfter, deliver: job.WriteFailDeliver, once: job.WriteFailOnce, gates: gt, rec: rec}
 	cli := atp.NewClient(chanRW{s2cR, cw})
 
 	srv := &server{rec: rec, ws: map[string]bool{}, wsn: map[string]int{}, giveUp: timeout / 3, fw: fw}
@@ -947,8 +948,12 @@ func runJob(job atpcs.Job) (res atpcs.JobResult) {
 			if x := execs[o.R]; x != nil && x.to != nil {
 				rec.add(atpcs.Ev{K: "dsig", Run: o.R, Msg: o.SR})
 				id := "sg"
+				var data any = "d"
+				if o.Unenc > 0 {
+					data = map[string]any{"f": func() {}} // the CBOR encoder refuses it: the write fails locally
+				}
 				select {
-				case x.to <- schema.Input{RunID: o.SR, ID: id, InputData: "d"}:
+				case x.to <- schema.Input{RunID: o.SR, ID: id, InputData: data}:
 				case <-time.After(timeout / 2):
 					rec.add(atpcs.Ev{K: "dsigdrop", Run: o.R})
 				}
